@@ -28,6 +28,8 @@ def main():
     harmless = '--harmless' in sys.argv
     args = [a for a in sys.argv[1:] if not a.startswith('--')]
     ids = args or sorted(d for d in os.listdir(os.path.join(VERIF, 'seeded')) if re.match(r'C\d+-b?\d+$', d))
+    if '--harmless-agents' in sys.argv:
+        return run_harmless(only_prefix='agent', by_files=True)
     if harmless:
         return run_harmless()
     if not os.path.isdir(WT):
@@ -60,28 +62,47 @@ def main():
     sh('git -C %s checkout -q -- . && git -C %s clean -fdq' % (WT, WT))
 
 
-def run_harmless():
+def run_harmless(only_prefix='patch_', by_files=False):
     """Edits under which every property still holds: every check must stay green (exit 0)."""
     if not os.path.isdir(WT):
         sh('git -C /repo worktree add --detach %s HEAD' % WT)
     claimed = [c['property_id'] for c in json.load(open(os.path.join(VERIF, 'MANIFEST.json')))['checks']]
     hd = os.path.join(VERIF, 'seeded', 'harmless')
     out = {}
-    for patch in sorted(f for f in os.listdir(hd) if f.endswith('.diff')):
+    file_props = {}
+    if by_files:
+        sys.path.insert(0, os.path.join(VERIF, 'tools'))
+        import weave
+        import extract
+        for u in weave.load_units(os.path.join(VERIF, 'contracts')):
+            for h in u.harnesses:
+                for p in h.props:
+                    if p in claimed and p != 'C12':
+                        file_props.setdefault(u.target, set()).add(p)
+        for it in extract.ITEMS:
+            for p in it.get('props', []):
+                file_props.setdefault(it['file'], set()).add(p)
+    if by_files and os.path.exists(os.path.join(hd, 'eval_agents.json')):
+        out = json.load(open(os.path.join(hd, 'eval_agents.json')))
+    for patch in sorted(f for f in os.listdir(hd) if f.endswith('.diff') and f.startswith(only_prefix)):
         sh('git -C %s checkout -q -- . && git -C %s clean -fdq' % (WT, WT))
         r = sh('git -C %s apply %s' % (WT, os.path.join(hd, patch)))
         if r.returncode:
             print(patch, 'does not apply', r.stderr)
             continue
         out[patch] = {}
-        for p in claimed:
+        todo = claimed
+        if by_files:
+            files = re.findall(r'^\+\+\+ b/(\S+)', open(os.path.join(hd, patch)).read(), re.M)
+            todo = sorted({p for f in files for p in file_props.get(f, set())})
+        for p in todo:
             env = dict(os.environ, VERIF_REPO=WT, VERIF_BUILD=BUILD)
             r = subprocess.run(['python3', os.path.join(VERIF, 'tools', 'check.py'), p, '--tier', 'quick'],
                                capture_output=True, text=True, env=env)
             lines = [l for l in r.stdout.split('\n') if re.match(r'(VIOLATION|TOOLING|UNDECIDED)', l)]
             out[patch][p] = {'exit': r.returncode, 'lines': lines[:5]}
             print('HARMLESS', patch, p, 'exit=%d' % r.returncode, ' | '.join(lines[:2])[:200], flush=True)
-    json.dump(out, open(os.path.join(hd, 'eval.json'), 'w'), indent=1)
+    json.dump(out, open(os.path.join(hd, 'eval_agents.json' if by_files else 'eval.json'), 'w'), indent=1)
     sh('git -C %s checkout -q -- . && git -C %s clean -fdq' % (WT, WT))
 
 
